@@ -87,7 +87,7 @@ class Spec:
     def __init__(self, qual, params, returns="none", requires=(), ensures=(), aux=(), raises=None,
                  modifies=(), loops=None, inline=False, locals=None, pure=False, hints=(),
                  trusted=False, fresh=(), cases=None, at=None, ghost=None, ghost_calls=None, reveal=(), bind=None, decreases=None,
-                 region=None, let=None, abstract=None):
+                 region=None, let=None, abstract=None, negative_indices=False):
         self.qual = qual
         self.params = params            # ordered dict name -> kind text
         self.returns = returns
@@ -106,6 +106,7 @@ class Spec:
         self.ghost = ghost or {}        # ghost parameters (name -> kind text)
         self.ghost_calls = ghost_calls or {}   # callee short name -> {ghost param -> expression in the caller}
         self.cases = cases
+        self.negative_indices = negative_indices
         self.region = region            # (first statement text, statement text to stop before | None): verify this slice
         self.let = let or {}            # region inputs defined by an expression over the other inputs
         self.abstract = abstract or {}  # function-valued input -> name of an uninterpreted function (its axioms via reg.axioms)
@@ -244,9 +245,16 @@ class Executor:
 
     def assume_list_lengths(self, k, arrs):
         """lengths of lists stored in a field are non-negative (holds of every list; stated for havoced heaps too)"""
-        if isinstance(k, KList):
-            r = z3.Int(uid("llr"))
-            self.ctx.hyps.append(z3.ForAll([r], z3.Select(arrs[0], r) >= 0))
+        depth, kk = 0, k
+        while isinstance(kk, KList):
+            # level `depth` lengths: arrs[depth] indexed by the object and `depth` list positions
+            vs = [z3.Int(uid("llr")) for _ in range(depth + 1)]
+            t = arrs[depth]
+            for v in vs:
+                t = z3.Select(t, v)
+            self.ctx.hyps.append(z3.ForAll(vs, t >= 0))
+            depth += 1
+            kk = kk.elem
 
     def assume_closed_heap(self, key, k, arrs):
         """A-ALLOC for the initial heap: every reference stored in a field at entry denotes an object allocated
@@ -501,10 +509,19 @@ class Executor:
             if z3.is_int_value(n) and n.as_long() <= 16:
                 return or_(*[compare("==", list_get(cont, z3.IntVal(i)), x) for i in range(n.as_long())])
             i = z3.Int(uid("in"))
-            return z3.Exists([i], and_(i >= 0, i < n, compare("==", list_get(cont, i), x)))
+            if self.spec_mode:
+                return z3.Exists([i], and_(i >= 0, i < n, compare("==", list_get(cont, i), x)))
+            # in code the membership test becomes a propositional atom with a witness, so that path conditions and
+            # merged values stay quantifier-free:  b -> element w is x ;  any element equal to x -> b
+            b, w = z3.Bool(uid("member")), z3.Int(uid("memberw"))
+            self.ctx.add_hyp(implies(b, and_(w >= 0, w < n, compare("==", list_get(cont, w), x))), [str(b)])
+            self.ctx.add_hyp(z3.ForAll([i], implies(and_(i >= 0, i < n, compare("==", list_get(cont, i), x)), b)), [str(b)])
+            return b
         if isinstance(cont.kind, KDict):
             from . import dicts
             return dicts.contains(cont, x)
+        if isinstance(cont.kind, KSet):
+            return set_contains(cont, x)
         self.unsupported(node, "in on %r" % (cont.kind,))
 
     def e_BoolOp(self, node, st):
@@ -591,10 +608,17 @@ class Executor:
                 return i
             self.check(st, "IndexError", -i <= n, node)
             return n + i
-        self.check(st, "IndexError", and_(i < n, i >= -n), node)
-        if self.spec_mode:
-            return i
-        return if_(i < 0, i + n, i)
+        top = self.ctx.top_spec
+        if self.spec_mode or (top is not None and getattr(top, "negative_indices", False)):
+            self.check(st, "IndexError", and_(i < n, i >= -n), node)
+            if self.spec_mode:
+                return i
+            return if_(i < 0, i + n, i)
+        # symbolic indices are required to be non-negative (a negative one would silently wrap around in Python);
+        # proving 0 <= i keeps the wrap-around term out of every later formula.  Contracts of functions that index
+        # from the end with a computed index set negative_indices=True.
+        self.check(st, "IndexError-or-negative-index", and_(i >= 0, i < n), node)
+        return i
 
     def e_Subscript(self, node, st):
         base = self.eval(node.value, st)
@@ -868,7 +892,13 @@ class Executor:
         if spec.trusted:
             self.ctx.trusted_used.add(fi.qual)
         formals = self.bind_args(fi, args, kwargs, st)
-        self.check_defaults(fi, spec, args, kwargs, formals, st)
+        try:
+            self.check_defaults(fi, spec, args, kwargs, formals, st)
+        except OutOfSubset as e:
+            # the call passes an argument the contract fixes to another value: allowed only on a dead path
+            self.check(st, "call-outside-contract:%s" % fi.short, FALSE, node, kind="call-pre")
+            st.pc = FALSE
+            return fresh(self.kind_of(spec.returns), "ret_dead")
         for n, ktxt in spec.params.items():
             if n in formals:
                 formals[n], sc = coerce(formals[n], self.kind_of(ktxt))
@@ -1194,7 +1224,11 @@ class Executor:
     def assign(self, target, v, st, node):
         if isinstance(target, ast.Name):
             dk = self.declared_local(target.id)
-            if v.py == "emptydict":
+            if v.py == "emptyset":
+                if dk is None:
+                    raise OutOfSubset("%s: kind of empty set %s must be declared (spec.locals)" % (self.fi.qual, target.id))
+                v = set_empty(dk)
+            elif v.py == "emptydict":
                 if dk is None:
                     raise OutOfSubset("%s: kind of empty dict %s must be declared (spec.locals)" % (self.fi.qual, target.id))
                 from . import dicts
@@ -1239,6 +1273,9 @@ class Executor:
                 from . import dicts
                 v = dicts.empty(self.ctx.reg.fields[(self.owner_class(obj.kind.cls, mangle(target.attr, self.fi.cls)),
                                                       mangle(target.attr, self.fi.cls))])
+            if v.py == "emptyset":
+                v = set_empty(self.ctx.reg.fields[(self.owner_class(obj.kind.cls, mangle(target.attr, self.fi.cls)),
+                                                   mangle(target.attr, self.fi.cls))])
             self.write_field(st, obj, mangle(target.attr, self.fi.cls), v, node)
             return
         if isinstance(target, ast.Subscript):
